@@ -65,6 +65,7 @@ fn tlv_world() -> WorldSys<'static, LockMon> {
         Ev::T(0, Timer::Delay),
         Ev::SlaveOnly(true),
         Ev::Quality(0),
+        Ev::Observe,
     ];
     WorldSys {
         property: "C17",
@@ -84,6 +85,8 @@ fn systems() -> (Vec<WorldSys<'static, LockMon>>, std::collections::HashMap<Stri
     let mut systems: Vec<_> = built.into_iter().map(|(s, _)| s).collect();
     for s in &mut systems {
         s.obedient = false;
+        // the observer's getters (with the slave port's contribution) between any two host calls
+        s.alphabet.push(Ev::Observe);
     }
     let t = tlv_world();
     depths.insert(t.name.clone(), (5, 7));
@@ -95,7 +98,13 @@ pub fn run(tier: Tier) -> i32 {
     let mut rep = Reporter::new("C17", tier, "model_checking");
     let (systems, depths) = systems();
     explore_all(&mut rep, &systems, |s| tier.pick(depths[&s.name].0.saturating_sub(1).max(3), depths[&s.name].1), tier.pick(8.0, 300.0));
-    let sweep: Vec<_> = build("C17", &MON, crate::c08::sweep_defs(tier == Tier::Quick), true).into_iter().map(|(s, _)| s).collect();
+    let sweep: Vec<_> = build("C17", &MON, crate::c08::sweep_defs(tier == Tier::Quick), true)
+        .into_iter()
+        .map(|(mut s, _)| {
+            s.alphabet.push(Ev::Observe);
+            s
+        })
+        .collect();
     explore_more(&mut rep, "sweep", &sweep, tier.pick(3, 4), tier.pick(2.0, 30.0));
     // (b) loom
     let bound = tier.pick(3, 6);
